@@ -17,6 +17,14 @@ const vrtPkg = "github.com/reedom/convergen/pkg/vrt."
 
 func (r *Run) symFS() bool { return r.Env["fs"] == "symbolic" }
 
+// keyOf: a stable textual key of a path value (the string itself when concrete).
+func keyOf(v value) string {
+	if s, ok := v.(string); ok {
+		return s
+	}
+	return toString(v)
+}
+
 // nondetErr returns a nil or fresh non-nil error, chosen by a named symbolic boolean.
 func (r *Run) nondetErr(name string) value {
 	b := r.newInput(r.freshName(name), SBool)
@@ -45,13 +53,19 @@ func EnvStubs(st map[string]StubFn) {
 			return tuple{iface{v: nativeV{reflect.ValueOf(fi)}}, iface{}}
 		}
 		r.Effects = append(r.Effects, Effect{Op: "Stat", Args: []value{a[0]}})
-		// symbolic file system: the file exists or not (per path string, memoised by term)
-		key := "stat:" + toString(a[0])
+		// symbolic file system: the file exists or not (per path string, memoised by term);
+		// the harness may fix the outcome with SetEnv("fs.exists:<path>", bool)
+		key := "stat:" + keyOf(a[0])
 		if v, ok := r.Env[key]; ok {
 			return v
 		}
 		var res value
-		exists := r.newInput(r.freshName("exists("+toString(a[0])+")"), SBool)
+		var exists value
+		if hv, ok := r.Env["fs.exists:"+keyOf(a[0])]; ok {
+			exists = hv
+		} else {
+			exists = r.newInput(r.freshName("exists("+keyOf(a[0])+")"), SBool)
+		}
 		if r.branch(exists) {
 			res = tuple{iface{v: r.newToken("fileinfo", map[string]value{"path": a[0]})}, iface{}}
 		} else {
@@ -78,7 +92,7 @@ func EnvStubs(st map[string]StubFn) {
 		}
 		// two stat results are the same file iff the harness-declared identity says so:
 		// same-file relation is a symbolic boolean per unordered pair of path terms
-		px, py := toString(ox.attrs["path"]), toString(oy.attrs["path"])
+		px, py := keyOf(ox.attrs["path"]), keyOf(oy.attrs["path"])
 		if px == py {
 			return true
 		}
@@ -89,7 +103,12 @@ func EnvStubs(st map[string]StubFn) {
 		if v, ok := r.Env[key]; ok {
 			return v
 		}
-		b := r.newInput(key, SBool)
+		var b value
+		if hv, ok := r.Env["fs.same:"+px+"|"+py]; ok {
+			b = hv
+		} else {
+			b = r.newInput(key, SBool)
+		}
 		res := r.branch(b)
 		r.Env[key] = res
 		return res
